@@ -51,6 +51,7 @@ def run(ctx):
     ctx.rule("G3", "provenance of missing_deps_from's argument in get_missing_deps: queue hashes chained with the heads parameter")
     ctx.rule("G5", "sibling agreement: ChangeQueue methods mutating `changes` mutate `hashes` and `incoming_actor_seqs` as well")
     ctx.rule("G4", "provenance of BatchApply::push's argument: pop_topo_sorted_ready only")
+    ctx.rule("G8", "merge's dependency walk (Automerge::get_changes_added): collecting a hash and following its dependencies depends only on the visited set and on has_change (applied here) — a change that is merely *held* here is still followed, its missing ancestors are what the merge must bring")
     ctx.rule("G6", "no stale snapshot: a local set captured by a closure that prunes a ChangeQueue field (retain) is not extended afterwards")
     ctx.rule("G7", "whole-document replacement (`*self = doc`) in Automerge is edge-dominated by a test that reads ChangeQueue::is_empty (held changes are not thrown away)")
     f = ctx.facts()
@@ -278,6 +279,7 @@ def run(ctx):
                     ctx.ob("G7", "%s|*self replaced" % norm_fn(p).split("::")[-1], ok, st["sp"], "only when the queue is known to be empty" if ok else
                            "the document (and with it the queue of held changes) is replaced without a test that reads ChangeQueue::is_empty: changes held back for missing dependencies are thrown away")
     ctx.floor("whole-document replacements in Automerge methods", n7, 1)
+    check_merge_walk(ctx, f)
 
 
 def true_edges(b, sb, sw, negated):
@@ -287,3 +289,31 @@ def true_edges(b, sb, sw, negated):
     if want_nonzero:
         return [(sb, sw["otherwise"])]
     return [(sb, zero[0])] if zero else []
+
+
+def check_merge_walk(ctx, f):
+    AM = "automerge::automerge::Automerge"
+    from .C28 import control_switches_transitive
+    GA = AM + "::get_changes_added"
+    gb = ctx.body(GA)
+    ctx.analysed_fns.add(GA)
+    sites = [(bi, t) for bi, t in gb.calls() if (norm_fn(t.get("fn")) or "").split("::")[-1] in ("push", "extend") and "ChangeHash" in " ".join(t.get("argtys", []))
+             and any(gb.can_reach(bi, pb) and gb.can_reach(pb, bi) for pb, pt in gb.calls() if (norm_fn(pt.get("fn")) or "").split("::")[-1] == "pop")]
+    ctx.floor("collect / follow sites in get_changes_added", len(sites), 2)
+    for k, (bi, t) in util.ordinal_keys(sites, lambda it: "get_changes_added|%s" % (norm_fn(it[1].get("fn")) or "?").split("::")[-1]):
+        bad = []
+        for sb, sw in control_switches_transitive(gb, bi):
+            src = gb.bool_operand_source(sw["op"])
+            if src and src["kind"] == "discr":
+                d = gb.single_def(src["origin"][0])
+                if d and d[1] == "t" and (norm_fn(d[2].get("fn")) or "").split("::")[-1] in ("pop", "next"):
+                    continue
+            if src and src["kind"] == "call":
+                c = norm_fn(src["callee"]) or ""
+                if c == AM + "::has_change" or (c.split("::")[-1] in ("contains", "insert") and ("Set" in c or "set::" in c)):
+                    continue
+                if c.startswith("tracing") or "tracing" in c or c.split("::")[-1] in ("enabled", "is_never", "le", "interest", "current"):
+                    continue            # the tracing::trace! macro's level checks
+            bad.append(util.where(gb, sb))
+        ctx.ob("G8", k, not bad, t["sp"], "depends only on the visited set and has_change" if not bad else
+               "the walk that decides what a merge brings stops under a further condition (%s): a change this document only holds back is not followed, so its missing ancestors never arrive and it stays held" % bad)
